@@ -75,6 +75,24 @@ let cop_of (s : string) : DomOps.cop =
   | "idx" -> let (k, t) = split1 '=' rest in DomOps.CIndexOrInsert (bytes_of_hex k, tree_of_string t)
   | "set" -> DomOps.CSet (tree_of_string rest)
   | "take" -> DomOps.CTake
+  | "aappend" -> (match tree_of_string rest with DomOps.Arr xs -> DomOps.CArrAppend xs | _ -> raise (Hist_error "aappend"))
+  | "oappend" -> (match tree_of_string rest with DomOps.Obj ms -> DomOps.CObjAppend ms | _ -> raise (Hist_error "oappend"))
+  | "retain" -> DomOps.CRetainNonNull
+  | "splitoff" -> DomOps.CSplitOff (nat_of_int (ios rest))
+  | "resize" -> let (n, t) = split1 '=' rest in DomOps.CResize (nat_of_int (ios n), tree_of_string t)
+  | "extwithin" -> let (a, b) = split1 '=' rest in DomOps.CExtendWithin (nat_of_int (ios a), nat_of_int (ios b))
+  | "drain" -> let (a, b) = split1 '=' rest in DomOps.CDrain (nat_of_int (ios a), nat_of_int (ios b))
+  | "swap" -> let (a, b) = split1 '=' rest in DomOps.CSwap (nat_of_int (ios a), nat_of_int (ios b))
+  | "rementry" -> DomOps.CRemoveEntry (bytes_of_hex rest)
+  | "emod" -> let (k, r2) = split1 '=' rest in
+              let pos = ref 0 in let x = parse_tree r2 pos in
+              if !pos >= String.length r2 || r2.[!pos] <> '=' then raise (Hist_error "emod");
+              let y = tree_of_string (String.sub r2 (!pos + 1) (String.length r2 - !pos - 1)) in
+              DomOps.CEntryAndModify (bytes_of_hex k, x, y)
+  | "edef" -> DomOps.CEntryOrDefault (bytes_of_hex rest)
+  | "erem" -> DomOps.CEntryRemove (bytes_of_hex rest)
+  | "eins" -> let (k, t) = split1 '=' rest in DomOps.CEntryInsert (bytes_of_hex k, tree_of_string t)
+  | "fillnulls" -> DomOps.CFillNulls (tree_of_string rest)
   | _ -> raise (Hist_error ("cop " ^ name))
 
 let op_of (s : string) : DomOps.op =
